@@ -40,8 +40,8 @@ REL_NOTE = ("Trusted base: TLC 1.8 evaluating spec/Props.tla + spec/RelCheck.tla
             "harness/projection.py; Layer B substitutions. Both sides of every relation are real executions of /repo's working tree.")
 CHECKS.update({
  "C01": dict(engine="history", category="model_checking", design_ref="§8 C01",
-   technique="TLA+ relational check (TLC, RelCheck.tla): canonical form of the final state of an incremental history vs a real build from scratch of the final sources",
-   text="For hand-written drop/re-add shapes and seeded generated projects with 4-phase edit histories (sources, plan versions, environment), the final committed graph and output contents of the incremental execution are compared by TLC with those of a real build from scratch, through the specification's canonical form; every execution is additionally validated against the commit-level monitors.",
+   technique="TLA+ relational check (TLC, RelCheck.tla): canonical form of the final state of an incremental history vs a real build from scratch of the final sources; operational TLA+ model of plan re-execution (Recycle.tla) model checked and replayed action by action into the real Workflow",
+   text="For hand-written drop/re-add shapes and seeded generated projects with 4-phase edit histories (sources, plan versions, environment), the final committed graph and output contents of the incremental execution are compared by TLC with those of a real build from scratch, through the specification's canonical form; every execution is additionally validated against the commit-level monitors. Recycle.tla (reset/detach, re-declare, recycle or re-create, finish, children with jobs in flight, delete_detached) is model checked (ownership, BUILT <=> SUCCEEDED, completeness of a finished build) and seeded/scripted action sequences are executed on the real Workflow through the graph API, every node compared with the specification after every action.",
    note=REL_NOTE),
  "C04": dict(engine="history", category="model_checking", design_ref="§8 C04",
    technique="TLA+ relational check (TLC, RelCheck.tla): no-op rebuild leaves graph/outputs untouched with zero commands; executed commands of an edited rebuild lie in the least-fixed-point cone",
@@ -58,11 +58,11 @@ CHECKS.update({
 
 CHECKS.update({
  "C02": dict(engine="schedules", category="model_checking", design_ref="§8 C02",
-   technique="TLA+ relational check (TLC, RelCheck.tla same_final): full graph rendering and outputs of the same project under different controlled schedules, job counts, resource limits, and resumed vs fresh",
+   technique="TLA+ relational check (TLC, RelCheck.tla same_final): full graph rendering and outputs of the same project under different controlled schedules, job counts, resource limits, and resumed vs fresh; operational TLA+ model of the file/step state machine (FileStep.tla: ExternalCommute) model checked and replayed into the real Workflow",
    text="Each project is built from scratch under 6-12 controlled schedules (fifo/lifo/random release of every scheduling point, delay-rank 'slow step' schedules, jobs 1-4, resource limits) and resumed with nothing changed; TLC compares the full graph rendering (detached nodes, hash presence) and outputs of successful builds and the success/failed/pending class of all builds.",
    note=REL_NOTE + " Conflict error texts are compared by the graph-layer check, not here."),
  "C14": dict(engine="watch", category="model_checking", design_ref="§8 C14",
-   technique="TLA+ relational check (TLC, RelCheck.tla watch_eq_restart): real Watcher on real inotify vs restart on a copy of the same pre-state",
+   technique="TLA+ relational check (TLC, RelCheck.tla watch_eq_restart): real Watcher on real inotify vs restart on a copy of the same pre-state; operational TLA+ model of the file/step state machine (FileStep.tla) model checked (order independence of a batch of external updates) and replayed into the real Workflow",
    text="The real director runs in watch mode on real inotify; each watch phase applies a random event sequence (create/modify/delete/restore/recreate of sources, glob matches, tree files, outputs; directory removal and move; plan edits); the rebuilt state is compared by TLC with a restarted director on a snapshot of the same pre-state with the same events applied.",
    note=REL_NOTE),
  "C06": dict(engine="buildlayer", category="model_checking", design_ref="§8 C06",
@@ -151,6 +151,8 @@ def main():
             {"name": "c20", "path": "checks/c20.py", "serves_properties": ["C20"], "kind_free_text": "PathXlate.tla validation of recorded translation calls, api calls and executor environment"},
             {"name": "history", "path": "checks/history.py", "serves_properties": sorted(p for p, c in CHECKS.items() if c["engine"] == "history"),
              "kind_free_text": "Layer B histories; final states of related executions compared by TLC through spec/RelCheck.tla"},
+            {"name": "filestep", "path": "checks/filestep.py", "serves_properties": ["C02", "C14"], "kind_free_text": "FileStep.tla model check + replay of action sequences into the real Workflow (Layer G); library called by the C02 and C14 checks"},
+            {"name": "recycle", "path": "checks/recycle.py", "serves_properties": ["C01"], "kind_free_text": "Recycle.tla model check + replay of plan re-execution sequences into the real Workflow (Layer G); library called by the C01 check"},
         ],
         "checks": checks,
         "notes": "See DESIGN.md. known_findings.json lists repaired (fix:) and known defects.",
